@@ -58,7 +58,9 @@ class Context:
         self.sqrt_apps = []
         self.decide_timeout_ms = 5000
         self.unknown_decisions = 0
-        self.congruence = True
+        self.congruence = True  # True (all pairs) | False | 'pruned' (numeric-fingerprint filtered)
+        self.fp_pins = {}
+        self.fp_alias = {}  # const id -> name used for its pseudo-random fingerprint value
         self.lemmas = []  # on-request lemma instances (each must be justified by the harness)
 
     def fresh_name(self, base):
@@ -470,14 +472,12 @@ def _emit_axioms(fname, args, k):
             )
         return
     if fname == "exp":
+        x = args[0]
         c.axioms.append(k > 0)
-        v = num_value(args[0])
-        if v is not None and v == 0:
-            c.axioms.append(k == 1)
+        c.axioms.append(z3.And(z3.Implies(x > 0, k > 1), z3.Implies(x < 0, k < 1), z3.Implies(x == 0, k == 1)))
     elif fname == "log":
-        v = num_value(args[0])
-        if v is not None and v == 1:
-            c.axioms.append(k == 0)
+        x = args[0]
+        c.axioms.append(z3.And(z3.Implies(x > 1, k > 0), z3.Implies(z3.And(x > 0, x < 1), k < 0), z3.Implies(x == 1, k == 0)))
     elif fname == "sqrt":
         x = args[0]
         c.axioms.append(z3.Implies(x >= 0, z3.And(k >= 0, k * k == x)))
@@ -612,7 +612,16 @@ class Verdict:
 
 def background(include_pc=True):
     c = CTX
-    bg = list(c.assumptions) + list(c.axioms) + list(c.lemmas) + congruence_axioms()
+    key = (c.congruence, sum(len(v) for v in c.apps.values()), len(c.fp_pins))
+    if getattr(c, "_cong_cache", (None, None))[0] == key:
+        cong = c._cong_cache[1]
+    else:
+        if c.mode == "R" and c.congruence == "pruned":
+            cong = congruence_axioms_pruned()
+        else:
+            cong = congruence_axioms()
+        c._cong_cache = (key, cong)
+    bg = list(c.assumptions) + list(c.axioms) + list(c.lemmas) + cong
     if include_pc:
         bg += list(c.pc)
     return bg
@@ -742,3 +751,182 @@ def explore(fn, mode="R", max_paths=100000, setup=None):
         yield c, res
         if n >= max_paths:
             raise Unsupported(f"path budget {max_paths} exhausted (unwinding bound too small)")
+
+
+# ------------------------------------------------------------------------------------------------
+# numeric fingerprints: prune useless congruence instances (sound: omitting a congruence axiom only weakens the
+# background theory, it can make a proof fail -> inconclusive, never make a false claim provable)
+# ------------------------------------------------------------------------------------------------
+_TRUE_FUNCS = {
+    "exp": lambda x: math.exp(max(min(x, 50.0), -50.0)),
+    "log": lambda x: math.log(abs(x) + 1e-12),
+    "sqrt": lambda x: math.sqrt(abs(x)),
+    "tanh": math.tanh,
+    "lgamma": lambda x: math.lgamma(abs(x) + 1e-3),
+    "log1p": lambda x: math.log1p(abs(x)),
+    "expm1": lambda x: math.expm1(max(min(x, 50.0), -50.0)),
+}
+
+
+def _pseudo(name, vals, seed):
+    import hashlib
+
+    key = name + "|" + ",".join("%.9g" % v for v in vals) + "|" + str(seed)
+    h = int(hashlib.md5(key.encode()).hexdigest()[:12], 16)
+    return 0.5 + (h % 10**6) / 10**6 * 1.5
+
+
+class Fingerprinter:
+    def __init__(self, seed, pins=None):
+        self.seed = seed
+        self.memo = {}
+        self.pins = pins or {}
+        self.app_of = {}
+        for fname, apps in CTX.apps.items():
+            for args, k in apps:
+                self.app_of[k.get_id()] = (fname, args)
+
+    def ev(self, t):
+        i = t.get_id()
+        if i in self.memo:
+            return self.memo[i]
+        r = self._ev(t)
+        self.memo[i] = r
+        return r
+
+    def _ev(self, t):
+        v = num_value(t)
+        if v is not None:
+            return float(v) if not isinstance(v, bool) else v
+        if t.get_id() in self.pins:
+            return self.pins[t.get_id()]
+        k = t.decl().kind()
+        if k == z3.Z3_OP_UNINTERPRETED and t.num_args() == 0:
+            app = self.app_of.get(t.get_id())
+            if app is not None:
+                fname, args = app
+                vals = [float(self.ev(a)) for a in args]
+                f = _TRUE_FUNCS.get(fname)
+                if f is not None and len(vals) == 1:
+                    try:
+                        return f(vals[0])
+                    except Exception:
+                        return _pseudo(fname, vals, self.seed)
+                if fname == "pow":
+                    try:
+                        return abs(vals[0]) ** vals[1]
+                    except Exception:
+                        return _pseudo(fname, vals, self.seed)
+                return _pseudo(fname, vals, self.seed)
+            nm = CTX.fp_alias.get(t.get_id()) or str(t)
+            if z3.is_bool(t):
+                return _pseudo(nm, [], self.seed) > 1.25
+            if z3.is_int(t):
+                return float(int(_pseudo(nm, [], self.seed) * 3))
+            return _pseudo(nm, [], self.seed)
+        ch = [self.ev(c) for c in t.children()]
+        try:
+            if k == z3.Z3_OP_ADD:
+                return sum(ch)
+            if k == z3.Z3_OP_SUB:
+                r = ch[0]
+                for c in ch[1:]:
+                    r -= c
+                return r
+            if k == z3.Z3_OP_UMINUS:
+                return -ch[0]
+            if k == z3.Z3_OP_MUL:
+                r = 1.0
+                for c in ch:
+                    r *= c
+                return r
+            if k in (z3.Z3_OP_DIV, z3.Z3_OP_IDIV):
+                return ch[0] / ch[1] if ch[1] != 0 else _pseudo("div0", [ch[0]], self.seed)
+            if k == z3.Z3_OP_ITE:
+                return ch[1] if ch[0] else ch[2]
+            if k == z3.Z3_OP_AND:
+                return all(ch)
+            if k == z3.Z3_OP_OR:
+                return any(ch)
+            if k == z3.Z3_OP_NOT:
+                return not ch[0]
+            if k == z3.Z3_OP_EQ:
+                return ch[0] == ch[1] if isinstance(ch[0], bool) else abs(ch[0] - ch[1]) <= 1e-9 * (1 + abs(ch[0]))
+            if k == z3.Z3_OP_LE:
+                return ch[0] <= ch[1]
+            if k == z3.Z3_OP_LT:
+                return ch[0] < ch[1]
+            if k == z3.Z3_OP_GE:
+                return ch[0] >= ch[1]
+            if k == z3.Z3_OP_GT:
+                return ch[0] > ch[1]
+            if k == z3.Z3_OP_TO_REAL:
+                return float(ch[0])
+            if k == z3.Z3_OP_TO_INT:
+                return float(math.floor(ch[0]))
+            if k == z3.Z3_OP_IMPLIES:
+                return (not ch[0]) or ch[1]
+            if k == z3.Z3_OP_XOR:
+                return bool(ch[0]) != bool(ch[1])
+            if k == z3.Z3_OP_POWER:
+                return abs(ch[0]) ** ch[1]
+        except (OverflowError, ZeroDivisionError, ValueError):
+            return _pseudo("err", [], self.seed)
+        raise Unsupported(f"fingerprint of {t.decl()}")
+
+
+def congruence_axioms_pruned(n_points=2):
+    """congruence instances restricted to pairs of applications whose arguments agree numerically on random points
+    (interpreting abstracted functions by the true functions)"""
+    c = CTX
+    out = []
+    try:
+        fps = [Fingerprinter(s, getattr(c, "fp_pins", None)) for s in range(n_points)]
+    except Unsupported:
+        return congruence_axioms()
+    kept = dropped = 0
+    for fname, apps in c.apps.items():
+        n = len(apps)
+        if n < 2:
+            continue
+        try:
+            sig = [tuple(tuple(float(fp.ev(a)) for a in args) for fp in fps) for args, _ in apps]
+        except (Unsupported, RecursionError):
+            sig = None
+        for i in range(n):
+            ai, ki = apps[i]
+            for j in range(i + 1, n):
+                aj, kj = apps[j]
+                if len(ai) != len(aj) or ki.sort() != kj.sort():
+                    continue
+                if sig is not None:
+                    close = all(
+                        abs(x - y) <= 1e-6 * (1 + abs(x) + abs(y)) for p, q in zip(sig[i], sig[j]) for x, y in zip(p, q)
+                    )
+                    if not close:
+                        dropped += 1
+                        continue
+                kept += 1
+                out.append(z3.Implies(z3.And(*[x == y for x, y in zip(ai, aj)]), ki == kj))
+    c.notes.append(f"congruence instances kept {kept}, pruned {dropped}")
+    return out
+
+
+def exp_shift_lemmas(shift, eshift=None, n_points=2):
+    """For pairs of exp applications whose arguments differ (numerically, on random points with the true functions) by
+    exactly +shift, add the instance  a_j == a_i + shift  ->  exp(a_j) == exp(a_i) * exp(shift).  Every instance is a true
+    fact about exp whatever the fingerprints say; fingerprints only select which instances are worth adding."""
+    c = CTX
+    eshift = eshift if eshift is not None else apply_fn("exp", (shift,))
+    apps = list(c.apps.get("exp", []))
+    fps = [Fingerprinter(s_, c.fp_pins) for s_ in range(n_points)]
+    vals = [[float(fp.ev(a[0])) for fp in fps] for a, _ in apps]
+    sh = [float(fp.ev(shift)) for fp in fps]
+    out = []
+    for i, (ai, ki) in enumerate(apps):
+        for j, (aj, kj) in enumerate(apps):
+            if i == j:
+                continue
+            if all(abs(vals[j][p] - vals[i][p] - sh[p]) <= 1e-7 * (1 + abs(vals[j][p]) + abs(vals[i][p])) for p in range(n_points)):
+                out.append(z3.Implies(aj[0] == ai[0] + shift, kj == ki * eshift))
+    return out
